@@ -78,7 +78,16 @@ def setup():
 def make_instance(det):
     x, y, score, animal = det[:4]
     sz = det[4] if len(det) > 4 else 3 + (animal % 3)
-    pts = _np.array([[x, y], [x + sz, y], [x, y + sz]], dtype=float)
+    pose = det[5] if len(det) > 5 else "tri"
+    nan = float("nan")
+    if pose == "hline":      # collinear, identical y: zero-height box
+        pts = _np.array([[x, y], [x + sz, y], [x + sz / 2, y]], dtype=float)
+    elif pose == "vline":    # collinear, identical x: zero-width box
+        pts = _np.array([[x, y], [x, y + sz], [x, y + sz / 2]], dtype=float)
+    elif pose == "single":   # one visible keypoint: 1×1 box
+        pts = _np.array([[x, y], [nan, nan], [nan, nan]], dtype=float)
+    else:
+        pts = _np.array([[x, y], [x + sz, y], [x, y + sz]], dtype=float)
     return _sio.PredictedInstance.from_numpy(pts, _skel, point_scores=_np.ones(3), score=float(score))
 
 
@@ -111,12 +120,15 @@ class Recorder:
     def begin(self, frame):
         self.frame, self.nfeat = frame, 0
         self.table, self.match_calls, self.scores = [], [], None
+        self.feats = []        # (keypoints, feature) of this frame's detections, in order
 
     def _wrap_feature(self, fn):
         def w(inst):
             r = fn(inst)
             self.feat_id[id(r)] = (self.frame, self.nfeat)
             self.keep.append(r)
+            pts = inst if isinstance(inst, _np.ndarray) else inst.numpy()
+            self.feats.append((_np.array(pts, dtype=float), _np.array(r, dtype=float)))
             self.nfeat += 1
             return r
         return w
@@ -205,7 +217,8 @@ def run_impl(case):
         res = call(tracker.track, insts, f)
         fr = {"n": len(insts), "scores": [float(d[2]) for d in dets], "table": list(rec.table),
               "matrix": tracker.__dict__.get("_rec_scores"), "match": list(rec.match_calls),
-              "pre_tracks": pre_tracks, "pre_stale": pre_stale, "pre_queue_empty": pre_queue_empty}
+              "pre_tracks": pre_tracks, "pre_stale": pre_stale, "pre_queue_empty": pre_queue_empty,
+              "feats": list(rec.feats)}
         if res[0] == "ok":
             out = []
             for o in res[1]:
@@ -277,8 +290,12 @@ def model_lines(case, frames, fixes):
         toks = ["frame", str(f), str(fr["n"])] + [rat(s) for s in fr["scores"]]
         toks.append(str(len(fr["table"])))
         for a, b, v in fr["table"]:
-            if a is None or b is None or v != v or math.isinf(v):
-                raise RuntimeError(f"unidentified feature or non-finite raw score {a} {b} {v}")
+            if a is None or b is None:
+                raise RuntimeError(f"unidentified feature {a} {b} {v}")
+            if v != v or math.isinf(v):
+                # the model's scores are total: a NaN / infinite raw score is a disagreement by itself
+                fr["nonfinite_score"] = (a, b, v)
+                v = 0.0
             toks += [str(a[1]), str(b[0]), str(b[1]), rat(v)]
         mcall = fr["match"][-1] if fr["match"] else None
         if mcall is not None and fr["matrix"] is not None:
@@ -341,6 +358,8 @@ def compare_frame(case, fr, mo):
     diffs = []
     if mo is None:
         return ["parse"]
+    if fr.get("nonfinite_score") is not None:
+        diffs.append("nonfinite-raw-score")
     if im["res"] != mo["res"]:
         diffs.append("res")
     if im["res"] == "ok" and mo["res"] == "ok":
@@ -387,6 +406,73 @@ def compare_frame(case, fr, mo):
     elif mo["shape"] != "nomat" and fr["res"] == "ok":
         diffs.append("shape")
     return diffs
+
+
+# --------------------------------------------------------------------------- modelled features / scores
+SCORE_TOL = 1e-9
+
+
+def _pts_tokens(pts):
+    toks = [str(len(pts))]
+    for x, y in pts:
+        toks += [rat(float(x)), rat(float(y))]
+    return toks
+
+
+def feature_score_lines(case, frames, max_scores=80):
+    """Driver lines for the modelled `get_bbox` / `get_centroid` / `compute_iou` /
+    `compute_euclidean_distance` on what the implementation really saw, with the recorded values."""
+    cfg = case["cfg"]
+    feat, sc = cfg["features"], cfg["scoring_method"]
+    lines, meta = [], []
+    if feat not in ("bboxes", "centroids"):
+        return lines, meta
+    for f, fr in enumerate(frames):
+        for j, (pts, val) in enumerate(fr.get("feats", [])):
+            lines.append(" ".join(["bbox" if feat == "bboxes" else "centroid"] + _pts_tokens(pts)))
+            meta.append(("feature", f, j, [float(x) for x in val]))
+    n = 0
+    for f, fr in enumerate(frames):
+        for a, b, v in fr["table"]:
+            if a is None or b is None or n >= max_scores:
+                continue
+            try:
+                fa = frames[a[0]]["feats"][a[1]][1]
+                fb = frames[b[0]]["feats"][b[1]][1]
+            except (IndexError, KeyError):
+                continue
+            if sc == "iou" and feat == "bboxes":
+                lines.append("iou " + " ".join(rat(float(x)) for x in list(fa) + list(fb)))
+                meta.append(("iou", f, (a, b), v))
+                n += 1
+            elif sc == "euclidean_dist" and feat == "centroids":
+                lines.append("d2 " + " ".join(rat(float(x)) for x in list(fa) + list(fb)))
+                meta.append(("euclid", f, (a, b), v))
+                n += 1
+    return lines, meta
+
+
+def compare_features(chk, case, meta, outs):
+    """Model (exact, `Rat`) vs recorded implementation values.  Returns the number of differences."""
+    bad = 0
+    for (kind, f, key, val), out in zip(meta, outs):
+        ok = True
+        if kind == "feature":
+            mine = None if out.strip() == "nan" else [Fraction(t) for t in out.split()]
+            theirs = None if any(x != x for x in val) else [Fraction(x) for x in val]
+            ok = mine == theirs
+        elif kind == "iou":
+            ok = val == val and abs(float(Fraction(out)) - val) <= SCORE_TOL
+        elif kind == "euclid":
+            d2 = float(Fraction(out))
+            ok = val == val and val <= 0 and abs(val * val - d2) <= SCORE_TOL * max(1.0, d2)
+        chk.tag("model_" + kind + "_compared")
+        if not ok:
+            bad += 1
+            if bad <= 2:
+                chk.disagree(f"modelled {kind} differs from the implementation", {"case": case, "frame": f, "what": key},
+                             val, out)
+    return bad
 
 
 # --------------------------------------------------------------------------- property oracle
@@ -448,7 +534,10 @@ def all_configs():
     return out
 
 
-def gen_case(rng, cfg=None, max_animals=5, max_frames=12):
+DEGENERATE = ["hline", "vline", "single"]
+
+
+def gen_case(rng, cfg=None, max_animals=5, max_frames=12, degenerate=None):
     cfg = dict(cfg or rng.choice(all_configs()))
     cfg["window_size"] = rng.choice([1, 2, 3, 5])
     cfg["instance_score_threshold"] = rng.choice([0.0, 0.0, 0.5])
@@ -456,6 +545,13 @@ def gen_case(rng, cfg=None, max_animals=5, max_frames=12):
     K = min(K, max_animals)
     F = rng.randint(2, max_frames)
     style = rng.choice(["lattice", "lattice", "close", "coincident"])
+    # degenerate poses (collinear keypoints / one visible keypoint → zero-width or zero-height box),
+    # only for bboxes+iou where the box geometry matters (seeded C10-r2m1)
+    poses = None
+    if cfg["features"] == "bboxes" and (degenerate or (degenerate is None and rng.random() < 0.5)):
+        poses = [rng.choice(DEGENERATE + ["tri"]) for _ in range(K)]
+        for a in range(min(K, 2)):
+            poses[a] = rng.choice(DEGENERATE)
     pos = []
     for a in range(K):
         if style == "lattice":
@@ -479,10 +575,13 @@ def gen_case(rng, cfg=None, max_animals=5, max_frames=12):
             absent_run = gone[a] <= f < gone[a] + cfg["window_size"] + 1
             if f >= late[a] and not absent_run and rng.random() < p_present:
                 sc = rng.choice([0.9, 0.9, 0.75, 0.5, 0.25])
-                dets.append([pos[a][0], pos[a][1], sc, a])
+                if poses is None:
+                    dets.append([pos[a][0], pos[a][1], sc, a])
+                else:
+                    dets.append([pos[a][0], pos[a][1], sc, a, 3 + (a % 3), poses[a]])
         rng.shuffle(dets)
         frames.append(dets)
-    return {"cfg": cfg, "frames": frames}
+    return {"cfg": cfg, "frames": frames, **({"family": "degenerate_pose"} if poses else {})}
 
 
 def case_key(case, frames):
@@ -498,6 +597,8 @@ def case_tags(case, frames):
             "red_" + cfg["scoring_reduction"], f"window_{cfg['window_size']}"]
     if any(len(d) == 0 for d in case["frames"]):
         tags.append("has_empty_frame")
+    if case.get("family"):
+        tags.append("family_" + case["family"])
     if any(fr["pre_stale"] for fr in frames):
         tags.append("has_stale_track")
     if any(fr["match"] and isinstance(fr["match"][-1][1], list) and len(fr["match"][-1][1]) < fr["n"]
@@ -600,6 +701,16 @@ def process(chk, cases, fixes, name="tracker step (ids, output, queue state, sco
         runs.append(frames)
     outs = run_driver("C09.lean", lines)
     ndis = 0
+    flines, fmeta, fspans = [], [], []
+    for case, frames in zip(cases, runs):
+        ls, ms = feature_score_lines(case, frames)
+        fspans.append((len(flines), len(ls)))
+        flines += ls
+        fmeta += ms
+    fouts = run_driver("C09.lean", flines)
+    for case, (o, n) in zip(cases, fspans):
+        if compare_features(chk, case, fmeta[o:o + n], fouts[o:o + n]):
+            ndis += 1
     for case, frames, (o, n) in zip(cases, runs, spans):
         mo = [parse_model(x) for x in outs[o + 1:o + n]]
         nontrivial = sum(fr["n"] for fr in frames) > 0
@@ -663,6 +774,40 @@ def focused_search(chk, cfgs, n):
     return found
 
 
+def direct_score_checks(chk, n=60):
+    """`compute_cosine_sim` (not reachable through the three feature/score pairs of the property) and
+    `compute_iou` on degenerate boxes, called directly, against the modelled functions."""
+    from sleap_nn.tracking.utils import compute_cosine_sim, compute_iou
+    lines, meta = [], []
+    for _ in range(n):
+        a = [chk.rng.randrange(-160, 161) / 16 for _ in range(2)]
+        b = [chk.rng.randrange(-160, 161) / 16 for _ in range(2)]
+        if not any(a) or not any(b):
+            continue
+        lines.append("cosparts " + " ".join(rat(x) for x in a + b))
+        meta.append(("cos", a, b, call(compute_cosine_sim, _np.array(a), _np.array(b))))
+        x, y, w, h = (chk.rng.randrange(0, 160) / 16 for _ in range(4))
+        if chk.rng.random() < 0.5:
+            h = 0.0
+        box = [x, y, x + w, y + h]
+        box2 = [v + chk.rng.choice([0.0, 0.5, 40.0]) for v in box]
+        lines.append("iou " + " ".join(rat(v) for v in box + box2))
+        meta.append(("iou", box, box2, call(compute_iou, box, box2)))
+    outs = run_driver("C09.lean", lines)
+    for (kind, a, b, res), out in zip(meta, outs):
+        ok = res[0] == "ok" and res[1] == res[1]
+        if ok and kind == "cos":
+            dot, na, nb = (float(Fraction(t)) for t in out.split())
+            v = float(res[1])
+            ok = abs(v * v * na * nb - dot * dot) <= SCORE_TOL * max(1.0, dot * dot) and (v >= 0) == (dot >= 0)
+        elif ok:
+            ok = abs(float(Fraction(out)) - float(res[1])) <= SCORE_TOL
+        chk.tag("model_direct_" + kind + "_compared")
+        if not ok:
+            chk.disagree(f"modelled {kind} differs from the implementation (direct call)", {"a": a, "b": b},
+                         str(res), out)
+
+
 def load_corpus(pid):
     d = CORPUS / pid
     return [json.loads(p.read_text()) for p in sorted(d.glob("*.json"))] if d.exists() else []
@@ -679,9 +824,12 @@ def main(chk):
     cfgs = all_configs()
     for cfg in cfgs:
         cases.append(gen_case(chk.rng, cfg=cfg, max_frames=8))
+        if cfg["features"] == "bboxes":
+            cases.append(gen_case(chk.rng, cfg=cfg, max_frames=8, degenerate=True))
     for _ in range(chk.n(500, 6000)):
         cases.append(gen_case(chk.rng))
     ndis = process(chk, cases, fixes)
+    direct_score_checks(chk)
     if not all(fixes):
         # the region the repaired theorems do not speak for on this tree is covered by the oracle
         # on every history above; count the failures that fell under the known signatures
@@ -696,7 +844,8 @@ def main(chk):
 if __name__ == "__main__":
     chk = Check(
         "C09", module="SleapVerif.Props.C09", theorems=THEOREMS,
-        build_targets=["SleapVerif.Model.Tracker", "SleapVerif.Lemmas.Tracker", "SleapVerif.Lemmas.TrackerInv"],
+        build_targets=["SleapVerif.Model.Tracker", "SleapVerif.Model.TrackFeatures", "SleapVerif.Lemmas.Tracker",
+                       "SleapVerif.Lemmas.TrackerInv"],
         trusted=[
             "Lean 4.33 kernel; axioms ⊆ {propext, Classical.choice, Quot.sound}",
             "hand-written model SleapVerif.Tracker tied to /repo by per-frame correspondence on explored histories",
